@@ -39,7 +39,6 @@ mutual
 theorem canon_idem : ∀ n : Node, canon (canon n) = canon n
   | .ident i => by simp [canon, norm_canon]
   | .kwFolded r => by simp [canon, upper_idem]
-  | .kwRaw r => by simp [canon]
   | .lit s => by simp [canon]
   | .node t as => by simp [canon, canonList_idem as]
 theorem canonList_idem : ∀ l : List Node, canon.canonList (canon.canonList l) = canon.canonList l
@@ -48,38 +47,35 @@ theorem canonList_idem : ∀ l : List Node, canon.canonList (canon.canonList l) 
 end
 
 mutual
-theorem canon_caseEq : ∀ a b : Node, CaseEq a b → NoRawKw a → canon a = canon b
-  | .ident a, .ident b, h, _ => by
+theorem canon_caseEq : ∀ a b : Node, CaseEq a b → canon a = canon b
+  | .ident a, .ident b, h => by
     obtain ⟨hq, hr⟩ := h
     simp only [canon, Ident.norm]
     cases ha : a.quoted <;> simp [ha] at hr hq <;> simp [hq, hr]
-  | .kwFolded a, .kwFolded b, h, _ => by simp [CaseEq] at h; simp [canon, h]
-  | .kwRaw a, .kwRaw b, _, hn => by simp [NoRawKw] at hn
-  | .lit a, .lit b, h, _ => by simp [CaseEq] at h; simp [canon, h]
-  | .node t as, .node u bs, h, hn => by
+  | .kwFolded a, .kwFolded b, h => by simp [CaseEq] at h; simp [canon, h]
+  | .lit a, .lit b, h => by simp [CaseEq] at h; simp [canon, h]
+  | .node t as, .node u bs, h => by
     obtain ⟨rfl, hl⟩ := h
-    simp [canon, canonList_caseEq as bs hl hn]
-  | .ident _, .kwFolded _, h, _ | .ident _, .kwRaw _, h, _ | .ident _, .lit _, h, _ | .ident _, .node _ _, h, _
-  | .kwFolded _, .ident _, h, _ | .kwFolded _, .kwRaw _, h, _ | .kwFolded _, .lit _, h, _ | .kwFolded _, .node _ _, h, _
-  | .kwRaw _, .ident _, h, _ | .kwRaw _, .kwFolded _, h, _ | .kwRaw _, .lit _, h, _ | .kwRaw _, .node _ _, h, _
-  | .lit _, .ident _, h, _ | .lit _, .kwFolded _, h, _ | .lit _, .kwRaw _, h, _ | .lit _, .node _ _, h, _
-  | .node _ _, .ident _, h, _ | .node _ _, .kwFolded _, h, _ | .node _ _, .kwRaw _, h, _ | .node _ _, .lit _, h, _ => by
+    simp [canon, canonList_caseEq as bs hl]
+  | .ident _, .kwFolded _, h | .ident _, .lit _, h | .ident _, .node _ _, h
+  | .kwFolded _, .ident _, h | .kwFolded _, .lit _, h | .kwFolded _, .node _ _, h
+  | .lit _, .ident _, h | .lit _, .kwFolded _, h | .lit _, .node _ _, h
+  | .node _ _, .ident _, h | .node _ _, .kwFolded _, h | .node _ _, .lit _, h => by
     simp [CaseEq] at h
-theorem canonList_caseEq : ∀ as bs : List Node, CaseEq.CaseEqList as bs → NoRawKw.NoRawKwList as →
+theorem canonList_caseEq : ∀ as bs : List Node, CaseEq.CaseEqList as bs →
     canon.canonList as = canon.canonList bs
-  | [], [], _, _ => rfl
-  | a :: as, b :: bs, h, hn => by
+  | [], [], _ => rfl
+  | a :: as, b :: bs, h => by
     simp only [canon.canonList]
-    rw [canon_caseEq a b h.1 hn.1, canonList_caseEq as bs h.2 hn.2]
-  | [], _ :: _, h, _ => by simp [CaseEq.CaseEqList] at h
-  | _ :: _, [], h, _ => by simp [CaseEq.CaseEqList] at h
+    rw [canon_caseEq a b h.1, canonList_caseEq as bs h.2]
+  | [], _ :: _, h => by simp [CaseEq.CaseEqList] at h
+  | _ :: _, [], h => by simp [CaseEq.CaseEqList] at h
 end
 
 mutual
 theorem firstIdent_canon : ∀ n : Node, firstIdent (canon n) = (firstIdent n).map fun i => ⟨i.norm, i.quoted⟩
   | .ident i => by simp [canon, firstIdent]
   | .kwFolded r => by simp [canon, firstIdent]
-  | .kwRaw r => by simp [canon, firstIdent]
   | .lit s => by simp [canon, firstIdent]
   | .node t as => by simp [canon, firstIdent, firstIdentList_canon as]
 theorem firstIdentList_canon : ∀ l : List Node,
